@@ -53,7 +53,7 @@ func capsFromMask(mask int) []string {
 	return out
 }
 
-var replyAltNames = []string{"ok", "4yz", "5yz", "drop", "garbage-or-multiline", "ok-then-write-fails", "421-then-disconnect"}
+var replyAltNames = []string{"ok", "4yz", "5yz", "drop", "garbage-or-multiline", "ok-then-write-fails", "421-then-disconnect", "ok-but-late"}
 
 // stdScript answers every event through the chooser with the alphabet {default, 4yz, 5yz, drop}.
 func stdScript(c *vf.Chooser) func(s *refsmtp.Session, ev *refsmtp.Event, def refsmtp.Action) refsmtp.Action {
@@ -118,11 +118,14 @@ func stdScriptN(c *vf.Chooser, n int) func(s *refsmtp.Session, ev *refsmtp.Event
 	return stdScriptB(c, n, nil)
 }
 
-// stdScriptB: n=6 adds "reply ok, then the client's next write fails" (breakWrites is called to arm the fault).
+// stdScriptB: n=8 adds the late reply (outside TLS); n=6 adds "reply ok, then the client's next write fails" (breakWrites is called to arm the fault).
 func stdScriptB(c *vf.Chooser, n int, breakWrites func()) func(s *refsmtp.Session, ev *refsmtp.Event, def refsmtp.Action) refsmtp.Action {
 	return func(s *refsmtp.Session, ev *refsmtp.Event, def refsmtp.Action) refsmtp.Action {
 		if def.Kind != refsmtp.ActReply {
 			return def
+		}
+		if n == 8 && (s.InTLS || ev.Verb == "STARTTLS") {
+			return replyAction(c.Choose(ev.Pos(), 7), ev, def, breakWrites) // no late replies inside / at the switch to TLS
 		}
 		return replyAction(c.Choose(ev.Pos(), n), ev, def, breakWrites)
 	}
@@ -132,6 +135,11 @@ func stdScriptB(c *vf.Chooser, n int, breakWrites func()) func(s *refsmtp.Sessio
 // 4 stands for the garbage reply).
 func replyAction(pick int, ev *refsmtp.Event, def refsmtp.Action, breakWrites func()) refsmtp.Action {
 	switch pick {
+	case 7:
+		// the expected reply, but it reaches the socket only after the client's read has run into its deadline
+		a := def
+		a.Late = true
+		return a
 	case 6:
 		// RFC 5321 3.8: the server announces that it closes the channel, and does
 		return refsmtp.Action{Kind: refsmtp.ActReplyThenDrop, Code: 421, Text: []string{"4.3.2 service shutting down, closing transmission channel"}}
